@@ -10,7 +10,7 @@ FsCfgM == [op : {"WithFSConfig"}, fsnode : 1..4]
 IoM    == [op : {"WithStdout", "WithStderr", "WithStdin", "WithRandSource", "WithWalltime", "WithNanotime",
                  "WithNanosleep", "WithOsyield"}, id : {"w1", "w2"}]
 SysM   == [op : {"WithSysWalltime", "WithSysNanotime", "WithSysNanosleep"}]
-UseM   == [op : {"Use"}]
+UseM   == [op : {"Use"}, sock : BOOLEAN]   \* instantiate, with / without a socket configuration in the context
 MountM == [op : {"WithDirMount", "WithReadOnlyDirMount", "WithFSMount"}, guest : {"/", "/a", "a/", "/b"},
            dir : {"d1", "d2"}]
 RcM    == [op : {"WithCoreFeatures"}, f : {"v1", "v2"}] \cup
@@ -19,6 +19,14 @@ RcM    == [op : {"WithCoreFeatures"}, f : {"v1", "v2"}] \cup
                  "WithCustomSections"}, b : BOOLEAN] \cup
           [op : {"WithCompilationCache"}, id : {"c1", "c2"}]
 SockM  == [op : {"WithTCPListener"}, host : {"h1", "h2"}, port : {1, 2}]
+
+(* step k adds the k-th fresh key: histories differ only in the choice of parents, so every tree shape
+   over a growing slice (capacities 1,2,4,8) is visited: 720 trees at depth 6 *)
+FreshKey == <<"A", "B", "C", "D", "E", "F", "G">>
+FreshGuest == <<"/", "/a", "/b", "/c", "/d", "/e", "/f">>
+MethodsFreshEnv == {[op |-> "WithEnv", k |-> FreshKey[i], v |-> "1", idx |-> i] : i \in 1..7}
+MethodsFreshMount == {[op |-> "WithDirMount", guest |-> FreshGuest[i], dir |-> "d1", idx |-> i] : i \in 1..7}
+RootsFsOnly == <<"fs">>
 
 (* alphabets per configuration *)
 MethodsEnv   == EnvM(EnvKeys) \cup UseM
